@@ -17,7 +17,9 @@ RULE = ("Every l = 0..10 (all 121 functions) is enumerated in every run with the
         "of phi and positive near the north pole at Hypothesis-drawn points, documented default order, agreement with the "
         "recurrence oracle R4, left = right^T.  Conventions: all Cartesian orders and all label orders/signs for l <= 2 "
         "enumerated (drawn for l = 3..5); output must be the default matrix permuted/negated exactly.  Malformed "
-        "conventions from a single-edit mutation grammar over valid label lists must be rejected.  Non-trivial: l >= 2, "
+        "conventions from a single-edit mutation grammar over valid label lists must be rejected; every sequence of 2l+1 labels over the "
+        "signed alphabet (l <= 1 all 217; l = 2 every 16th of 100 000 in the quick tier, all in the thorough tier) must be honoured "
+        "exactly if each pure function occurs once, and rejected otherwise.  Non-trivial: l >= 2, "
         "or a non-default convention, or a malformed set one edit away from a valid one.")
 ASSUMPTIONS = ["closed-form same-shell overlap of normalised Cartesian Gaussians; R4 validated in vf.selftest"]
 
@@ -184,7 +186,7 @@ def shards_conv_drawn(tier):
 
 
 # ---- malformed conventions ---------------------------------------------------------------------
-EDITS = ["drop", "duplicate", "m-too-large", "wrong-letter", "upper-case", "embedded-sign", "doubled-sign", "whitespace",
+EDITS = ["drop", "duplicate", "duplicate-opposite-sign", "m-too-large", "wrong-letter", "upper-case", "embedded-sign", "doubled-sign", "whitespace",
          "non-string", "extra", "plus-sign", "not-a-sequence", "float-m", "cart-duplicate-row", "cart-wrong-sum",
          "cart-wrong-shape", "bad-apply-from", "negative-l", "empty-label"]
 
@@ -212,6 +214,10 @@ def apply_edit(case):
         if i == j or len(lab) < 2:
             return None
         lab[j] = lab[i]
+    elif e == "duplicate-opposite-sign":
+        if i == j or len(lab) < 2:
+            return None
+        lab[j] = bare if lab[i].startswith("-") else "-" + bare  # the same function twice, once with each sign
     elif e == "m-too-large":
         lab[i] = bare[0] + str(l + 1)
     elif e == "wrong-letter":
@@ -273,11 +279,52 @@ def shards_malformed(tier):
     return [{"id": i, "n": n} for i in range(k)]
 
 
+# ---- every sequence of 2l+1 labels over the signed alphabet ----------------------------------------------
+def seq_cases(shard):
+    """All sequences of length 2l+1 over {+,-} x {s_l..s_1, c_0..c_l} (l=1: 216, l=2: 100 000): a sequence is a valid convention
+    iff every pure function occurs exactly once (with either sign); valid ones must be honoured exactly, all others rejected."""
+    l = shard["l"]
+    alphabet = [sg + x for x in r4.default_sph(l) for sg in ("", "-")]
+    seqs = itertools.product(alphabet, repeat=2 * l + 1)
+    for k, seq in enumerate(seqs):
+        if k % shard["of"] == shard["part"]:
+            yield {"l": l, "labels": list(seq)}
+
+
+def judge_seq(case):
+    l, labels = case["l"], case["labels"]
+    bare = sorted(x.lstrip("-") for x in labels)
+    valid = bare == sorted(r4.default_sph(l))
+    v = Verdict(nontrivial=True, classes=["l-%d" % l, "valid" if valid else "invalid"])
+    if valid:
+        return judge_conv({"l": l, "cart": [list(c) for c in r4.default_cart(l)], "labels": labels})
+    if len(set(bare)) < len(set(labels)):
+        v.classes.append("same-function-both-signs")
+    try:
+        out = generate_transformation(l, np.array(r4.default_cart(l)), tuple(labels), "left")
+    except Exception:  # noqa: BLE001 - rejection is the required outcome
+        return v
+    return v.fail(f"invalid convention accepted: l={l}, labels={labels!r} returned an array of shape {np.shape(out)}",
+                  key="malformed-sequence")
+
+
+def shards_seq(tier):
+    out = [{"id": "l0", "l": 0, "of": 1, "part": 0, "cost": 1}, {"id": "l1", "l": 1, "of": 1, "part": 0, "cost": 10}]
+    # l = 2: 100 000 sequences; the quick tier takes every 16th, the thorough tier all of them
+    parts = 16
+    for i in range(parts):
+        if tier == "thorough" or i == 0:
+            out.append({"id": f"l2-{i}", "l": 2, "of": parts, "part": i, "cost": 300})
+    return out
+
+
 SUBCHECKS = [
     SubCheck("default", judge_default, shards_default, strategy=strat_default),
     SubCheck("conventions", judge_conv, shards_conv, cases=conv_cases),
     SubCheck("conventions-drawn", judge_conv, shards_conv_drawn, strategy=lambda s: conv_st(s["l"])),
     SubCheck("malformed", judge_malformed, shards_malformed, strategy=lambda s: malformed_st()),
+    SubCheck("label-sequences", judge_seq, shards_seq, cases=seq_cases),
 ]
 EXHAUSTIVE = {"default": "every l = 0..10, every m (121 functions)",
-              "conventions": "all Cartesian component orders and all label orders x signs for l <= 2"}
+              "conventions": "all Cartesian component orders and all label orders x signs for l <= 2",
+              "label-sequences": "every sequence of 2l+1 signed labels for l <= 1 (l = 2: every 16th in the quick tier, all 100 000 in the thorough tier)"}
